@@ -111,8 +111,9 @@ pub fn gen_fields(t: &mut Tape, status: u16, count: usize, obs: bool) -> Vec<Fie
 }
 
 pub fn gen_case(t: &mut Tape) -> Case {
-    let method = t.pick(&[Method::GET, Method::HEAD, Method::POST]).clone();
     let req_v10 = t.chance(20);
+    // the head comes back complete whatever the request was (a 2xx answer to CONNECT keeps its framing fields, too)
+    let method = if req_v10 { t.pick(&[Method::GET, Method::HEAD, Method::POST]).clone() } else { crate::drive::recv::METHODS[t.below(9)].clone() };
     let status = gen_status(t);
     let count = match t.weighted(&[6, 3, 2, 2, 2]) {
         0 => t.range(0, 8),
